@@ -41,7 +41,7 @@ func closeTo(got float64, want *big.Rat) bool {
 }
 
 func TestC12Phi(t *testing.T) {
-	vlib.SetRule("C12", "TestC12Phi", "window size 1-64 (biased to 50 and tiny), bootstrap interval, strictly increasing arrivals up to 5x the window with intervals from 1ns to 1h scales, queries at and after the last arrival; oracle: exact rational phi (tolerance 1e-9 relative), phi==0 at arrival, monotone in t, accuracy/completeness bounds from min/max window interval, metamorphic prefix-independence; non-trivial = sequence longer than the window (eviction exercised)")
+	vlib.SetRule("C12", "TestC12Phi", "window size 1-64 (biased to 50 and tiny), bootstrap interval, strictly increasing arrivals up to 5x the window with intervals from 1ns to 1h scales, queries at and after the last arrival, and a peer that is queried before it is first heard from; oracle: exact rational phi (tolerance 1e-9 relative), phi==0 at arrival, monotone in t, accuracy/completeness bounds from min/max window interval, metamorphic prefix-independence; non-trivial = sequence longer than the window (eviction exercised)")
 	vlib.Run(t, "C12", func(c *vlib.Case) {
 		W := c.Int("window", 1, 64)
 		if c.Chance("prod", 1, 4) {
@@ -145,6 +145,27 @@ func TestC12Phi(t *testing.T) {
 		if p := fd.SuspicionLevelAt("unknown", q0.Add(time.Duration(s))); !closeTo(p, new(big.Rat).SetFrac64(s, bootstrap)) {
 			c.Fatalf("C12: never-heard node after %dns: phi=%v want silence/bootstrap=%v", s, p, float64(s)/float64(bootstrap))
 		}
+		// ... and is then heard from for the first time (liveness is evaluated for peers
+		// known only from third parties before their first packet arrives): the window
+		// still starts with the bootstrap sample. Whether the time between the first
+		// query and the first arrival counts as a sample is left open.
+		gap := drawInterval(c, "firstHeardGap")
+		t1 := q0.Add(time.Duration(s + gap))
+		fd.ReportWithTimestamp("unknown", t1)
+		counted, uncounted := []int64{bootstrap, s + gap}, []int64{bootstrap}
+		last := t1
+		d := drawInterval(c, "steady")
+		for i, m := 0, c.Int("steadyArrivals", 0, 3); i < m; i++ {
+			last = last.Add(time.Duration(d))
+			fd.ReportWithTimestamp("unknown", last)
+			counted, uncounted = append(counted, d), append(uncounted, d)
+		}
+		s2 := drawInterval(c, "silenceAfterFirstHeard")
+		got := fd.SuspicionLevelAt("unknown", last.Add(time.Duration(s2)))
+		if !closeTo(got, refPhi(counted, W, s2)) && !closeTo(got, refPhi(uncounted, W, s2)) {
+			c.Fatalf("C12: peer first queried at T, first heard %dns later, then %d arrivals %dns apart, silent for %dns: phi=%v; with the bootstrap sample %dns first in the window the level is %s (or %s if the time before the first arrival is not a sample)", s+gap, len(uncounted)-1, d, s2, got, bootstrap, refPhi(counted, W, s2).FloatString(9), refPhi(uncounted, W, s2).FloatString(9))
+		}
+		c.Class("queried-before-first-heard")
 		fd.Remove("x")
 		if p := fd.SuspicionLevelAt("x", now.Add(time.Hour)); p != 0 {
 			c.Fatalf("C12: after Remove the node is still remembered (phi=%v)", p)
